@@ -39,8 +39,12 @@ func main() {
 		if err != nil {
 			return err
 		}
-		g := &gctx{svc: svc, ss: ss, rt: rt, l: l}
-		for _, f := range []func() error{g.consts, g.perf, g.natTimeout, g.mtu, g.pskLengths, g.policies, g.filterSize, g.directTargetOnly, g.defaultClient, g.legacy, g.setNames, g.serverIndex} {
+		ap, err := loadLight(c.Repo, "api")
+		if err != nil {
+			return err
+		}
+		g := &gctx{svc: svc, ss: ss, rt: rt, ap: ap, l: l}
+		for _, f := range []func() error{g.consts, g.perf, g.natTimeout, g.mtu, g.pskLengths, g.policies, g.filterSize, g.directTargetOnly, g.defaultClient, g.legacy, g.setNames, g.serverIndex, g.apiBlock} {
 			if err := f(); err != nil {
 				return err
 			}
@@ -50,7 +54,7 @@ func main() {
 }
 
 type gctx struct {
-	svc, ss, rt *pkg
+	svc, ss, rt, ap *pkg
 	l       *gen.Lean
 }
 
@@ -1052,5 +1056,59 @@ func (g *gctx) serverIndex() error {
 		return fmt.Errorf("router: fromServers bit set is not sized by len(serverIndexByName) / tested at requestInfo.ServerIndex")
 	}
 	g.l.BoolDef("serverIndexEveryServer", true, "Config.Manager: every server stores its index under its name (duplicate names refused); router: fromServers bit set of capacity len(serverIndexByName), tested at the requesting server's index")
+	return nil
+}
+
+// ---- api.Config.NewServer: what reaches http.ServeMux.Handle (which panics on a malformed or conflicting pattern) ----
+
+func (g *gctx) apiBlock() error {
+	fd, err := g.ap.Func("*Config", "NewServer")
+	if err != nil {
+		return err
+	}
+	body := g.ap.Src(fd.Body)
+	for _, need := range []string{`if len(c.Listeners) == 0 { return nil, errors.New("no listeners specified") }`,
+		`if c.StaticPath != "" { mux.Handle("GET /", `, `return nil, fmt.Errorf("certificate list %q not found", lnc.CertList)`,
+		`return nil, fmt.Errorf("client CA X.509 certificate pool %q not found", lnc.ClientCAs)`} {
+		if !strings.Contains(body, need) {
+			return fmt.Errorf("api.Config.NewServer: %q not found", need)
+		}
+	}
+	checked, seen := false, 0
+	for _, st := range stmtsMentioning(g.ap, fd.Body, "SecretPath") {
+		src := g.ap.Src(st)
+		switch {
+		case src == `if c.SecretPath != "" { basePath = joinPatternPath(basePath, c.SecretPath) }`:
+			seen++
+		case regexp.MustCompile(`^if c\.SecretPath != "" \{ if strings\.ContainsAny\(c\.SecretPath, "\{\}"\) \{ return nil, fmt\.Errorf\(.*\) \} basePath = joinPatternPath\(basePath, c\.SecretPath\) \}$`).MatchString(src):
+			seen++
+			checked = true
+		default:
+			return fmt.Errorf("api.Config.NewServer: unrecognised statement about SecretPath: %q", src)
+		}
+	}
+	if seen != 1 {
+		return fmt.Errorf("api.Config.NewServer: expected one statement about SecretPath, found %d", seen)
+	}
+	g.l.BoolDef("apiSecretPathChecked", checked, "api.Config.NewServer: a secretPath containing '{' or '}' (ServeMux wildcard syntax) is refused with an error")
+	idx := 0
+	method := false
+	for _, st := range stmtsMentioning(g.ap, fd.Body, "pprof.Index") {
+		src := g.ap.Src(st)
+		switch {
+		case strings.HasPrefix(src, `mux.Handle(indexPath, realIP(`):
+			idx++
+		case strings.HasPrefix(src, `mux.Handle("GET "+indexPath, realIP(`):
+			idx++
+			method = true
+		case strings.HasPrefix(src, "if c.DebugPprof {"): // the enclosing block when the walker stops there
+		default:
+			return fmt.Errorf("api.Config.NewServer: unrecognised registration of pprof.Index: %q", src)
+		}
+	}
+	if idx != 1 {
+		return fmt.Errorf("api.Config.NewServer: expected one registration of pprof.Index, found %d", idx)
+	}
+	g.l.BoolDef("apiPprofIndexHasMethod", method, "api.Config.NewServer: the pprof index pattern carries the GET method (else it conflicts with the static file pattern \"GET /\")")
 	return nil
 }
